@@ -7,7 +7,8 @@ from gen.gen import load_spec
 
 RENAMES = ['main=ex_main', 'recv=vt_recv', 'recvfrom=vt_recvfrom', 'poll=vt_poll', 'read=vt_read', 'write=vt_write', 'sendto=vt_sendto', 'socket=vt_socket',
            'bind=vt_bind', 'setsockopt=vt_setsockopt', 'ioctl=vt_ioctl', 'close=vt_close', 'timerfd_create=vt_timerfd_create',
-           'timerfd_settime=vt_timerfd_settime', 'clock_gettime=vt_clock_gettime', 'sleep=vt_sleep']
+           'timerfd_settime=vt_timerfd_settime', 'clock_gettime=vt_clock_gettime', 'sleep=vt_sleep', 'recvmsg=vt_recvmsg', 'send=vt_send', 'sendmsg=vt_sendmsg',
+           'nanosleep=vt_nanosleep', 'usleep=vt_usleep', 'clock_nanosleep=vt_clock_nanosleep', 'getsockopt=vt_getsockopt', 'fcntl=vt_fcntl', 'connect=vt_connect']
 SAN = ['-fsanitize=address,undefined', '-fno-sanitize-recover=undefined', '-fno-omit-frame-pointer', '-ftrivial-auto-var-init=pattern']
 
 PROGRAMS = {
@@ -52,6 +53,16 @@ def build_program(bdir, name, init='pattern'):
     o = os.path.join(d, 'envseam.o')
     cmds.append(base + ['-c', os.path.join(core.ROOT, 'engine', 'envseam.c'), '-o', o])
     objs.append(o)
+    # FD mode of the CAN listener: the pinned tree's --fd option dereferences a null argument at start-up (outside the
+    # properties), so the mode variable is set through a preset hook. If a tree no longer has that variable (the options
+    # moved into a structure, say), the hook cannot be compiled: then the program's own --fd option is used instead.
+    fdmode = 'preset'
+    if '-DEX_HAS_CAN_VARIANT' in P['defs']:
+        r = core.sh(cmds[0])
+        if r.returncode != 0:
+            cmds[0] = [x for x in cmds[0] if x != '-DEX_HAS_CAN_VARIANT']
+            fdmode = 'option'
+    open(os.path.join(d, 'fdmode'), 'w').write(fdmode)
     core.par(cmds, 'example harness ' + name)
     exe = os.path.join(d, 'harness')
     core.link(exe, objs, cc='clang', flags=['-fsanitize=address,undefined', '-lm'])
@@ -83,10 +94,12 @@ def run_batch(exe, scripts, limit=2.0, _confirm=True):
     chunks = [scripts[i::n] for i in range(n)]
     env = dict(os.environ, ASAN_OPTIONS='detect_leaks=0:exitcode=77:abort_on_error=0:symbolize=1:allocator_may_return_null=1', UBSAN_OPTIONS='print_stacktrace=0')
 
+    fdopt = os.path.exists(os.path.join(os.path.dirname(exe), 'fdmode')) and open(os.path.join(os.path.dirname(exe), 'fdmode')).read() == 'option'
+
     def one(chunk):
         if not chunk:
             return ''
-        inp = ''.join('%s\t%s\t%s\t%s\n' % (i, a, p or '-', ','.join(ev)) for i, a, p, ev in chunk)
+        inp = ''.join('%s\t%s\t%s\t%s\n' % (i, a + (' --fd' if fdopt and p and 'fd' in p.split(',') and '--fd' not in a.split() else ''), p or '-', ','.join(ev)) for i, a, p, ev in chunk)
         p = subprocess.run([exe, '--limit', str(limit)], input=inp.encode(), stdout=subprocess.PIPE, stderr=subprocess.PIPE, env=env)
         if p.returncode != 0:
             core.die_infra('batch harness died: rc=%s %s' % (p.returncode, p.stderr[-500:].decode('latin-1')))
